@@ -14,6 +14,7 @@ func init() {
 	register("C06", scnCrcStrings, scnRtuFlips)
 	executors["rtuflip"] = execRtuFlip
 	executors["rtufliptail"] = execRtuFlipTail
+	executors["rtusess"] = execRtuSess
 
 	executors["crc"] = func(in []string) string {
 		v, st := modbus.VerifCRC(unhex(in[0]))
@@ -213,6 +214,103 @@ func scnRtuFlips(o *Out, r *Rng, thorough bool) {
 		o.Stat("flip:tail-during-quiet-period")
 	}
 	o.RunMany("rtufliptail", tails)
+	scnRtuSess(o, r, thorough)
+}
+
+// the timed session model (Model/TimedSession.v, Properties/C06c.v) against the
+// client: corrupted replies rejected before all their bytes are there
+func scnRtuSess(o *Out, r *Rng, thorough bool) {
+	var ins []string
+	n := 1
+	if thorough {
+		n = 6
+	}
+	for rep := 0; rep < n; rep++ {
+		for _, speed := range []int{9600, 19200} {
+			_, _ = speed, rep
+			t1us := 11 * 1000000 / speed
+			quiet := 256 * t1us / 1000 // ms
+			unit := 1 + r.Intn(247)
+			qty := 2 + r.Intn(3)
+			payload := []byte{byte(2 * qty)}
+			for k := 0; k < 2*qty; k++ {
+				payload = append(payload, byte(1+r.Intn(255)))
+			}
+			good := rtuFrame(byte(unit), 3, payload)
+			p2 := []byte{byte(2 * qty)}
+			for k := 0; k < 2*qty; k++ {
+				p2 = append(p2, byte(r.Intn(256)))
+			}
+			v2 := rtuFrame(byte(unit), 3, p2)
+			op := []string{"ReadRegisters", hxi(r.Intn(65000)), hxi(qty), "0"}
+			type cut struct {
+				bad  []byte
+				head int
+			}
+			var cuts []cut
+			b1 := append([]byte{}, good...)
+			b1[2] = 0 // byte count -> 0: a 5-byte frame with a wrong CRC
+			cuts = append(cuts, cut{b1, 5})
+			b2 := append([]byte{}, good...)
+			b2[1] ^= 0x10 // unknown function code: protocol error after the header
+			cuts = append(cuts, cut{b2, 3})
+			b3 := append([]byte{}, good...)
+			b3[1] ^= 0x80 // looks like an exception frame (5 bytes) with a wrong CRC
+			cuts = append(cuts, cut{b3, 5})
+			for _, c := range cuts {
+				for _, d := range []int{5000, 1000 * (quiet / 3), 1000 * (quiet - 50), -1} {
+					if !thorough && rep == 0 && d == 1000*(quiet/3) && speed == 9600 {
+						continue
+					}
+					ins = append(ins, strings.Join(append([]string{hxi(unit), itoa(speed), hx(c.bad[:c.head]), hx(c.bad[c.head:]), hx(v2), itoa(d)}, op...), " "))
+					if d < 0 {
+						o.Stat("rtusess:tail-after-flush")
+					} else {
+						o.Stat("rtusess:tail-in-quiet-period")
+					}
+				}
+			}
+		}
+	}
+	o.RunMany("rtusess", ins)
+}
+
+// rtusess: unit speed head tail valid2 d_us op... (see ocaml/scn_rtusess.ml)
+func execRtuSess(in []string) string {
+	c := sconn.New(false)
+	mc, err := modbus.VerifNewClientOnConn(&modbus.ClientConfiguration{URL: "rtuovertcp://x",
+		Timeout: time.Second, Speed: uint(atoi(in[1])), Logger: quiet}, c)
+	if err != nil {
+		return "harness-error"
+	}
+	mc.SetUnitId(uint8(unhx(in[0])))
+	head, tail, valid2 := unhex(in[2]), unhex(in[3]), unhex(in[4])
+	d := atoi(in[5])
+	n := 0
+	c.OnWrite = func(c *sconn.Conn, b []byte) {
+		n++
+		if n == 1 {
+			c.Feed(head)
+			if d >= 0 {
+				go func() {
+					// wait until the client has taken the head off the line
+					for i := 0; i < 20000 && c.ConsumedNow() < len(head); i++ {
+						time.Sleep(100 * time.Microsecond)
+					}
+					time.Sleep(time.Duration(d) * time.Microsecond)
+					c.Feed(tail)
+				}()
+			}
+		} else {
+			c.Feed(valid2)
+		}
+	}
+	r1 := callOp(mc, in[6:])
+	if d < 0 {
+		c.Feed(tail)
+	}
+	r2 := callOp(mc, in[6:])
+	return r1 + " " + r2
 }
 
 // rtufliptail: unit speed head tail valid2 op... : real deadlines. The first part of
